@@ -591,7 +591,7 @@ Definition step (k : kf) (pick : N) (a : action) (st : state) : state :=
       match cache st c i with
       | Some _ => st
       | None =>
-        if negb (i <? next st) then st else
+        if negb (i <? next st) || negb (memN c (convs st)) then st else
         if kf_viewstore k || (sv i =? ver st i)
         then set_cache st (fun c' i' => if (c' =? c) && (i' =? i) then Some (sv i) else cache st c' i')
         else (* repaired: output of an old version is dropped again by the posted closure and the stream is queued *)
